@@ -173,6 +173,14 @@ keyword:
 	| SUBSERVICE
 	{
 		$$ = "subservice"
+	}
+	| ENUM
+	{
+		$$ = "enum"
+	}
+	| ONEWAY
+	{
+		$$ = "oneway"
 	};
 
 // file
